@@ -34,6 +34,8 @@ class ProofLoop(LoopContract):
         self.repo, self.ids, self.tr = repo, ids, tr
 
     def entry(self, interp, ctx, env, it):
+        if not (isinstance(it, SV) and it.kind == 'idl' and it.t.eq(self.ids)):
+            raise Unsupported('the loop does not run over self._proof_expressions: the loop contract does not apply')
         self.C0 = self.tr.attrs['claims'].t
 
     def arbitrary_iteration(self, interp, ctx, env, it):
